@@ -346,6 +346,10 @@ func (conn *Conn) initialise() {
 	conn.in = make(chan *Line, 32)
 	conn.out = make(chan string, 32)
 	conn.die = nil
+	// What a server advertised or acknowledged belongs to the connection it
+	// said it on: a new connection negotiates from scratch.
+	conn.supportedCaps.Clear()
+	conn.currCaps.Clear()
 	if conn.st != nil {
 		conn.st.Wipe()
 	}
